@@ -346,8 +346,56 @@ def d1(ctx):
     # the exceptional copy of the finally block has its own CFG node for the same AST: collect all
     rn = {n.idx for n in cfg.nodes if n.ast is not None and
           any(x is r_ for r_ in restores for x in ast.walk(n.ast))}
-    leak_normal = not cfg.must_pass(en, rn, cfg.exit.idx)
-    leak_exc = not cfg.must_pass(en, rn, cfg.raise_exit.idx)
+    # "nothing to do" edges: the outcome of a comparison of the saved flag with the requested mode
+    # on which the two are equal.  Where the switch was skipped for that reason there is nothing
+    # to restore, and after a switch that did happen the outcome is impossible - such edges are
+    # not paths of the obligation.
+    mode_exprs = {mp, 'bool(%s)' % mp}
+    for s_ in walk(fn):
+        if isinstance(s_, ast.Assign) and len(s_.targets) == 1 and isinstance(s_.targets[0], ast.Name) and \
+                src(s_.value) in ('bool(%s)' % mp, mp):
+            mode_exprs.add(s_.targets[0].id)
+
+    def equal_edge(node, lab):
+        a = node.ast
+        if node.kind == 'cond' and lab == 'exc':
+            # in the exceptional copy of a finally block the edge that leaves the block carries
+            # the pending exception: it is the complement of the one labelled outcome
+            labs = [l_ for (_, l_) in cfg.succ[node.idx]]
+            if len(labs) == 2 and sorted(map(str, labs)) in (['True', 'exc'], ['False', 'exc']):
+                lab = not [l_ for l_ in labs if l_ != 'exc'][0]
+        if node.kind != 'cond' or lab not in (True, False) or not isinstance(a, ast.Compare) or len(a.ops) != 1:
+            return False
+        l, r = src(a.left), src(a.comparators[0])
+        if not ((l == prev and r in mode_exprs) or (r == prev and l in mode_exprs)):
+            return False
+        eq = isinstance(a.ops[0], (ast.Eq, ast.Is))
+        if not eq and not isinstance(a.ops[0], (ast.NotEq, ast.IsNot)):
+            return False
+        return lab is eq
+
+    def reaches(start_succ_of, avoid, goal):
+        seen = set()
+        work = [w for (w, lab) in cfg.succ[start_succ_of] if not equal_edge(cfg.nodes[start_succ_of], lab)]
+        while work:
+            x = work.pop()
+            if x in seen or x in avoid:
+                continue
+            seen.add(x)
+            if x == goal:
+                return True
+            for (w, lab) in cfg.succ[x]:
+                if not equal_edge(cfg.nodes[x], lab):
+                    work.append(w)
+        return False
+    leak_normal = reaches(en, rn, cfg.exit.idx)
+    leak_exc = reaches(en, rn, cfg.raise_exit.idx)
+    # ... and the switch itself is skipped for no other reason
+    yn = cfg.node_of(yields[0]) if yields else None
+    skipped = yn is not None and reaches(cfg.node_of(rd), {en}, yn)
+    ctx.check('dict_insertion_ordered/switch-on-every-path', not skipped,
+              'every path from the read of the previous flag to the yield switches the mode (or finds it already as requested)',
+              'the body of the block can be reached without the requested mode having been set', mod.loc(enter))
     ctx.check('dict_insertion_ordered/restore-on-every-path', not leak_normal and not leak_exc,
               'every path from the mode switch to any exit (return or exception) passes the restore',
               'the function can be left %s without restoring the mode'
